@@ -65,14 +65,14 @@ def run(ctx: Ctx, rep: Report) -> None:
 
 
 # ---------------------------------------------------------------- R1 / R2
-def check_filter(ctx: Ctx, rep: Report, wm: WalkModel) -> None:
+def check_filter(ctx: Ctx, rep: Report, wm: WalkModel, r1: str = "C01-R1", r2: str = "C01-R2") -> None:
     g = wm.dedup
     defs = ctx.defs(g)
     cfg = ctx.cfg(g)
     yields = [n for n in own_nodes(g.node) if isinstance(n, ast.Yield)]
     site = g.site()
     if len(yields) != 1 or not isinstance(yields[0].value, ast.Name):
-        rep.undecided("C01-R1", site, "the filter generator has exactly one `yield <name>`", f"{len(yields)} yields")
+        rep.undecided(r1, site, "the filter generator has exactly one `yield <name>`", f"{len(yields)} yields")
         return
     y = yields[0]
     var = y.value.id
@@ -108,7 +108,7 @@ def check_filter(ctx: Ctx, rep: Report, wm: WalkModel) -> None:
                     roots_param = gen.iter.id
     rep.check(
         contain_ok,
-        "C01-R1",
+        r1,
         g.site(y),
         f"`yield {var}` is reached only when any({var}.oid in root for root in <roots parameter>) holds",
         f"facts on all paths to the yield: {sorted(facts)}",
@@ -124,7 +124,7 @@ def check_filter(ctx: Ctx, rep: Report, wm: WalkModel) -> None:
             continue
         if isinstance(expr, ast.Compare) and isinstance(expr.ops[0], ast.In) and norm(expr.left) == f"{var}.oid" and isinstance(expr.comparators[0], ast.Name) and expr.comparators[0].id in g.params:
             seen_param = expr.comparators[0].id
-    rep.check(seen_param is not None, "C01-R2", g.site(y), f"`yield {var}` is reached only when {var}.oid is not in the seen-set parameter", f"facts: {sorted(facts)}", key=f"{g.key}|seen-guard")
+    rep.check(seen_param is not None, r2, g.site(y), f"`yield {var}` is reached only when {var}.oid is not in the seen-set parameter", f"facts: {sorted(facts)}", key=f"{g.key}|seen-guard")
     added = False
     if seen_param is not None:
         adds = [n for n in own_nodes(g.node) if isinstance(n, ast.Call) and isinstance(n.func, ast.Attribute) and n.func.attr == "add" and norm(n.func.value) == seen_param and len(n.args) == 1 and norm(n.args[0]) == f"{var}.oid"]
@@ -136,7 +136,17 @@ def check_filter(ctx: Ctx, rep: Report, wm: WalkModel) -> None:
             par = getattr(ast_stmt, "_parent", None)
             if par is not None and getattr(ystmt, "_parent", None) is par:
                 added = True
-    rep.check(added, "C01-R2", g.site(y), "the OID of every yielded value is added to the seen-set in the same block as the yield", key=f"{g.key}|seen-add")
+    rep.check(added, r2, g.site(y), "the OID of every yielded value is added to the seen-set in the same block as the yield", key=f"{g.key}|seen-add")
+    # a rejected element is skipped on its own: the loops of the filter are never left early
+    early = [n for n in own_nodes(g.node) if isinstance(n, (ast.Break, ast.Return))]
+    rep.check(
+        not early,
+        r1,
+        g.site(early[0]) if early else g.site(),
+        "rejecting one binding (outside the roots / seen before) skips only that binding; the bindings after it in the batch are still examined",
+        f"`{type(early[0]).__name__.lower()}` at line {early[0].lineno} leaves the loop: later bindings of the batch are dropped although the walk continues after them" if early else "",
+        key=f"{g.key}|filter-leaves-loop",
+    )
     # call sites: bindings of the roots and the seen-set parameter
     wdefs = ctx.defs(wm.walk)
     seen_names = set()
@@ -154,7 +164,7 @@ def check_filter(ctx: Ctx, rep: Report, wm: WalkModel) -> None:
                 vals = wdefs.all_values(rarg.id)
                 ok = bool(vals) and all(is_order_preserving_of(v, wm.roots_param) for v in vals)
                 detail += f"; definitions: {[norm(v) for v in vals]}"
-        rep.check(ok, "C01-R1", wm.walk.site(call), "the filter is given the walk's own root list (not the continuation list of the current round)", detail, key=f"{wm.walk.key}|filter-roots-arg")
+        rep.check(ok, r1, wm.walk.site(call), "the filter is given the walk's own root list (not the continuation list of the current round)", detail, key=f"{wm.walk.key}|filter-roots-arg")
         sarg = bound.get(seen_param) if seen_param else None
         seen_names.add(sarg.id if isinstance(sarg, ast.Name) else f"<{norm(sarg) if sarg is not None else None}>")
     one = len(seen_names) == 1
@@ -165,7 +175,7 @@ def check_filter(ctx: Ctx, rep: Report, wm: WalkModel) -> None:
         val = wdefs.single(name)
         if stmt is not None and isinstance(val, ast.Call) and norm(val.func) == "set" and not val.args:
             created_once = not any(isinstance(a, (ast.While, ast.For, ast.AsyncFor)) for a in ancestors(stmt))
-    rep.check(one and created_once, "C01-R2", wm.walk.site(), "all rounds share one seen-set, created empty once and outside the continuation loop", f"seen-set arguments: {sorted(seen_names)}", key=f"{wm.walk.key}|seen-set-per-round")
+    rep.check(one and created_once, r2, wm.walk.site(), "all rounds share one seen-set, created empty once and outside the continuation loop", f"seen-set arguments: {sorted(seen_names)}", key=f"{wm.walk.key}|seen-set-per-round")
 
 
 def is_order_preserving_of(expr: ast.AST, param: str) -> bool:
